@@ -50,7 +50,7 @@ let rec parse_all toks = match toks with [] -> [] | _ -> let (x, r) = parse_sx t
 let prim_names = [
   "+", PAdd; "-", PSub; "*", PMul; "<", PLt; ">", PGt; "<=", PLe; ">=", PGe; "==", PEq; "!=", PNe;
   "not", PNot; "cons", PCons; "first", PFirst; "rest", PRest; "list", PList; "array", PArray;
-  "aget", PAget; "aset", PAset; "append", PAppend; "len", PLen; "concat", PConcat; "map", PMap; "apply", PApply;
+  "aget", PAget; "aset", PAset; "append", PAppend; "len", PLen; "concat", PConcat; "/", PDiv; "map", PMap; "apply", PApply;
   "trace", PTrace; "failk", PFailK ]
 
 let names : (string, int) Hashtbl.t = Hashtbl.create 64
@@ -82,6 +82,7 @@ let rec datum_of (x : sx) : datum =
   | A t ->
     if is_int_tok t then DInt (z_of_string t)
     else if String.length t > 2 && t.[0] = '%' && t.[1] = 'f' then DFlt (z_of_string (String.sub t 2 (String.length t - 2)))
+    else if String.length t > 2 && t.[0] = '%' && t.[1] = 'c' then DChr (z_of_string (String.sub t 2 (String.length t - 2)))
     else DSym (ident_of t)
   | L xs -> DList (List.map datum_of xs)
 
@@ -137,7 +138,8 @@ let rec show (v : sval) : string =
   | SvFn -> "FN"
   | SvPrim p -> "PRIM:" ^ prim_name p
   | SvCut -> "#"
-  | SvFlt h -> "F" ^ string_of_z h
+  | SvFlt (m, e) -> "F" ^ string_of_z m ^ "p" ^ string_of_z e
+  | SvChr c -> "C" ^ string_of_z c
 
 let show_trace (t : sval list list) : string =
   String.concat ";" (List.map (fun args -> String.concat "," (List.map show args)) t)
